@@ -13,6 +13,7 @@ import (
 	"github.com/LiskHQ/lisk-engine/pkg/labi"
 
 	"verifharness/blsref"
+	"verifharness/c03conv"
 	"verifharness/corr"
 	"verifharness/node"
 )
@@ -102,6 +103,7 @@ func refAssets(assets []*blockchain.BlockAsset) int {
 type genList struct {
 	from uint32 // first height the list is valid for
 	vals []*node.Validator
+	w    []uint64 // the APPLICATION's BFT weights of the entries (0 = standby validator); see applist.go
 }
 
 // world is what the planner knows about the chain without asking the code under test: the
@@ -178,17 +180,16 @@ func scriptChange(s *node.Script) (string, []*labi.Validator) {
 	if s.Precommit == 0 && s.Certificate == 0 && len(s.Validators) == 0 {
 		return "-", nil
 	}
-	var vals, gens []string
+	// the APPLICATION's list as it is (every entry with its weight, weight 0 included): the split into BFT
+	// validators and generators is made by the model itself (Model/Convert.lean), marker `app`
+	var app []string
 	var lv []*labi.Validator
 	for _, v := range s.Validators {
 		a := corr.UnHex(orDash(v.Address))
 		g := corr.UnHex(orDash(v.GeneratorKey))
 		bk := corr.UnHex(orDash(v.BLSKey))
 		lv = append(lv, &labi.Validator{Address: a, BFTWeight: v.BFTWeight, GeneratorKey: g, BLSKey: bk})
-		if v.BFTWeight > 0 {
-			vals = append(vals, fmt.Sprintf("%s:%d", corr.Hex(a), v.BFTWeight))
-		}
-		gens = append(gens, corr.Hex(a))
+		app = append(app, fmt.Sprintf("%s:%d", corr.Hex(a), v.BFTWeight))
 	}
 	j := func(l []string) string {
 		if len(l) == 0 {
@@ -196,7 +197,7 @@ func scriptChange(s *node.Script) (string, []*labi.Validator) {
 		}
 		return strings.Join(l, ",")
 	}
-	return fmt.Sprintf("%d/%d/%s/%s", s.Precommit, s.Certificate, j(vals), j(gens)), lv
+	return fmt.Sprintf("%d/%d/%s/app", s.Precommit, s.Certificate, j(app)), lv
 }
 
 func orDash(s string) string {
@@ -295,7 +296,14 @@ func (w *world) facts(b *blockchain.Block, injectInit bool) string {
 	// validatorsHash expected after execution
 	var expVH []byte
 	if change != "-" {
-		expVH, _ = node.ValidatorsHashOf(newVals, script.Certificate)
+		// own reference over the voting entries of the application's list (c03conv.RefValidatorsHash: hand-written
+		// encoding, no function of the repository); only when two voting entries share a BLS key with different
+		// weights - the order of equal keys is then not determined - the repository's own computation is taken
+		if ref, amb := c03conv.RefValidatorsHash(newVals, script.Certificate); !amb {
+			expVH = ref
+		} else {
+			expVH, _ = node.ValidatorsHashOf(newVals, script.Certificate)
+		}
 	} else if p, err := n.BFTParams(h.Height + 1); err == nil {
 		expVH = p.ValidatorsHash()
 	}
